@@ -43,6 +43,12 @@ RULE = ("K 2..4 users, 2..4 (thorough 2..6) antennas per node (square, "
         "iterations observed (mono also forces a class K=2, N>=4, >=2 "
         "streams in which an update needs several eigenvectors of a repeated "
         "eigenvalue).  distinct = SHA-1 of the case description")
+RULE += (" Added after the white-box review: "
+         "powers also as numpy / Python-int scalars; histories also "
+         "contain 'solver.P *= f' and calls that must be refused "
+         "(bad_call); the caller re-uses its stream-count array; "
+         "greedy and brute-force stream-search wrappers ")
+
 LEVEL_TEXT = ("Generated-input search (Hypothesis, seeded, sharded) over "
               "channels, antenna/stream/power configurations, solver classes, "
               "initialisation modes and setter/read histories.  Oracles: the "
